@@ -126,17 +126,18 @@ def tounicode_cmap(sections, codelen=1, usecmap=None, head=True):
 
 
 # ------------------------------------------------------------------------------------------------ Type 1 program header
-def type1_header(entries, fontname="VerifFont"):
+def type1_header(entries, fontname="VerifFont", standard=False):
     """Clear-text portion of a Type 1 font program whose built-in encoding is given by
     `dup <code> /<name> put` entries (Adobe Type 1 Font Format, section 2.2)."""
     out = bytearray(b"%!PS-AdobeFont-1.0: " + fontname.encode() + b" 001.000\n11 dict begin\n"
                     b"/FontInfo 2 dict dup begin /FullName (" + fontname.encode() + b") readonly def end readonly def\n"
                     b"/FontName /" + fontname.encode() + b" def\n/PaintType 0 def\n/FontType 1 def\n"
                     b"/FontMatrix [0.001 0 0 0.001 0 0] readonly def\n"
-                    b"/Encoding 256 array\n0 1 255 {1 index exch /.notdef put} for\n")
+                    + (b"/Encoding StandardEncoding def\n" if standard else
+                       b"/Encoding 256 array\n0 1 255 {1 index exch /.notdef put} for\n"))
     for code, name in entries:
         out += b"dup %d /%s put\n" % (code, name.encode())
-    out += b"readonly def\n/FontBBox {0 -200 1000 800} readonly def\ncurrentdict end\ncurrentfile eexec\n"
+    out += (b"" if standard else b"readonly def\n") + b"/FontBBox {0 -200 1000 800} readonly def\ncurrentdict end\ncurrentfile eexec\n"
     return bytes(out)
 
 
